@@ -76,7 +76,7 @@ func genC27(rt *rapid.T) any {
 		p.Split = append(p.Split, rapid.IntRange(1, 9).Draw(rt, "weight"))
 	}
 	for i, n := 0, rapid.IntRange(2, 6).Draw(rt, "nlists"); i < n; i++ {
-		l := C27List{Frac: rapid.SampledFrom([]int{3, 1, 5, 7, 9, 9, 10}).Draw(rt, "frac"), Fee: rapid.IntRange(0, 2).Draw(rt, "fee"),
+		l := C27List{Frac: rapid.SampledFrom([]int{3, 1, 5, 7, 9, 9, 10, 11}).Draw(rt, "frac"), Fee: rapid.IntRange(0, 2).Draw(rt, "fee"),
 			Merge: rapid.Bool().Draw(rt, "merge"), Utxo: rapid.IntRange(0, 3).Draw(rt, "utxoq") == 3,
 			TimeRange: rapid.SampledFrom([]int{0, 0, 3, 50}).Draw(rt, "timerange"), SkipKey: rapid.IntRange(0, 3).Draw(rt, "skipkey")}
 		for j, m := 0, rapid.IntRange(1, 3).Draw(rt, "nspend"); j < m; j++ {
@@ -217,8 +217,9 @@ func (s *c27sim) defineAsset(k int) *asset.Asset {
 
 var reservationErrors = []error{account.ErrInsufficient, account.ErrImmature, account.ErrReserved}
 
-// fundingFailure reports whether err is a Build failure whose every cause is of the insufficient-funds class.
-func fundingFailure(err error) (bool, string) {
+// fundingFailure reports whether err is a Build failure whose every cause is of the
+// insufficient-funds class and (if want is set) one of them is exactly want.
+func fundingFailure(err error, want error) (bool, string) {
 	if bytomerrors.Root(err) != txbuilder.ErrAction {
 		return false, fmt.Sprintf("%v", err)
 	}
@@ -226,14 +227,19 @@ func fundingFailure(err error) (bool, string) {
 	if len(errs) == 0 {
 		return false, "no action errors"
 	}
+	exact := want == nil
 	for _, e := range errs {
 		ok := false
-		for _, want := range reservationErrors {
-			ok = ok || bytomerrors.Root(e) == want
+		for _, cls := range reservationErrors {
+			ok = ok || bytomerrors.Root(e) == cls
 		}
 		if !ok {
 			return false, fmt.Sprintf("%v", bytomerrors.Root(e))
 		}
+		exact = exact || bytomerrors.Root(e) == want
+	}
+	if !exact {
+		return false, fmt.Sprintf("%v (expected: %v)", bytomerrors.Root(errs[0]), want)
 	}
 	return true, ""
 }
@@ -253,6 +259,7 @@ func (s *c27sim) runList(li int, l C27List) {
 		spenders = append(spenders, wn.Accts[i%len(wn.Accts)])
 	}
 	unfundable := l.Frac >= 10
+	beyondMature := false
 	spendOf := map[string]uint64{} // account/asset -> requested spend in total
 	var actions []txbuilder.Action
 	var order []string // human-readable action kinds, for traces
@@ -272,8 +279,19 @@ func (s *c27sim) runList(li int, l C27List) {
 				n++
 			}
 		}
-		amt := h.usable / uint64(n) * uint64(l.Frac) / 10
-		if unfundable && i == 0 {
+		base := h.usable
+		if particular != nil && particular.Prog.Acct == a {
+			base -= particular.Amount // already spent whole by the first action
+		}
+		amt := base / uint64(n) * uint64(l.Frac) / 10
+		if l.Frac == 11 && i == 0 && h.total > h.usable {
+			// more than is usable now, less than the account owns: part of it is still immature
+			amt = h.usable + (h.total-h.usable)/2 + 1
+			beyondMature = true
+			r.Count("lists.asked_beyond_mature", 1)
+		} else if l.Frac == 11 {
+			amt = h.usable / uint64(n) / 2
+		} else if unfundable && i == 0 {
 			amt = h.total + 1 + uint64(l.Fee)*1000
 		} else if unfundable {
 			amt = h.usable / uint64(n) / 2
@@ -439,7 +457,16 @@ func (s *c27sim) runList(li int, l C27List) {
 	tpl, err := txbuilder.Build(context.Background(), nil, actions, maxTime, timeRange)
 	r.Tracef("%s: %v frac=%d merge=%v -> built=%v mustFail=%v mustWork=%v", ctx, order, l.Frac, l.Merge, err == nil, mustFail, mustWork)
 	if err != nil {
-		isFunding, why := fundingFailure(err)
+		// more than the account owns: insufficient; within what it owns but beyond what is mature: immature
+		var wantErr error
+		if particular != nil {
+			// an output reserved by the list's own first action changes which reason the keeper gives
+		} else if mustFail {
+			wantErr = account.ErrInsufficient
+		} else if beyondMature {
+			wantErr = account.ErrImmature
+		}
+		isFunding, why := fundingFailure(err, wantErr)
 		switch {
 		case mustWork:
 			r.Violate("build-failed", "fundable", "%s (%v): every spending account holds enough usable funds, Build fails: %v", ctx, order, err)
